@@ -21,6 +21,9 @@
 (*   f: hashed fields Data Nonce Source Target Type Time ExtraData ChainId *)
 (*      (Source: key id of the address, 3 = that address with a flipped    *)
 (*      bit; 2 in a content field = base value with one bit flipped;       *)
+(*      3, 4, 5 in Data/Time/ExtraData/Target and 4 in Source = a textual  *)
+(*      variation that means the same to a reader (white space, key order, *)
+(*      number format, letter case) but is a different hash pre-image;     *)
 (*      ChainId: "low" | "high" | "other" | "zero" | "empty") and the      *)
 (*      unauthenticated ExtraDataType SubTransactions SubHash RequestId    *)
 (*      SocketRequestId                                                    *)
@@ -32,6 +35,8 @@
 (*        payload is protected for ("low" | "high" | "other" | "none" =     *)
 (*        pre-EIP-155 signature, V in {27,28}), k: signing key             *)
 (*   ed:  how ExtraData relates to the hex of the signed RLP payload       *)
+(*        (none | upper | garbage | trunc | trail | flip bit | reframe     *)
+(*        item how: same decoded content, different bytes)                 *)
 (*   f:   wrapper fields; "pay" = the value derived from the payload       *)
 (***************************************************************************)
 EXTENDS Integers, Sequences
@@ -82,9 +87,10 @@ Signed(f, k) == [kind |-> "native", f |-> f, fbit |-> NoBit,
                  Sign |-> [k |-> k, sof |-> HashedOf(f), dmg |-> "none", bit |-> 0]]
 HonestNative(h) == Signed(BaseFields(1, ChainOf(h)), 1)
 
-BasePay(prot, to) == [nonce |-> 0, to |-> to, value |-> 0, gas |-> 0, price |-> 0, data |-> 0, prot |-> prot, k |-> 1]
+(* dlen: number of bytes of call data *)
+BasePay(prot, to) == [nonce |-> 0, to |-> to, value |-> 0, gas |-> 0, price |-> 0, data |-> 0, dlen |-> 5, prot |-> prot, k |-> 1]
 Wrapped(pay) ==
-  [kind |-> "eth", pay |-> pay, ed |-> [dmg |-> "none", bit |-> 0],
+  [kind |-> "eth", pay |-> pay, ed |-> [dmg |-> "none", bit |-> 0, item |-> 0, how |-> ""],
    f |-> [Source |-> pay.k, Target |-> "pay", Nonce |-> "pay", ChainId |-> "pay", Data |-> "pay", Hash |-> "pay", Type |-> "eth",
           Time |-> 0, Sign |-> "nil", ExtraDataType |-> 0, SubTransactions |-> 0, SubHash |-> 0, RequestId |-> 0,
           SocketRequestId |-> 0],
@@ -145,5 +151,13 @@ DamageSign(tx, d, i) == [tx EXCEPT !.Sign.dmg = d, !.Sign.bit = i]
 (* eth: wrapper field changes, payload variants, damaged encodings *)
 SetWrap(tx, n, v) == [tx EXCEPT !.f[n] = v]
 FlipWrap(tx, n, i) == [tx EXCEPT !.f[n] = (IF n = "Source" THEN 3 ELSE "flip"), !.fbit = [field |-> n, bit |-> i]]
-DamageEd(tx, d, i) == [tx EXCEPT !.ed = [dmg |-> d, bit |-> i]]
+DamageEd(tx, d, i) == [tx EXCEPT !.ed = [dmg |-> d, bit |-> i, item |-> 0, how |-> ""]]
+(* same decoded content, different bytes: item number `item` of the signed payload (0 = the outer
+   list, 1..9 = nonce, gas price, gas, to, value, data, v, r, s) re-framed in a non-canonical way:
+   "long"  explicit-length form for a size <= 55,   "lead0" a leading zero byte in the length,
+   "wrap1" a single byte below 0x80 wrapped as a one-byte string.
+   ExtraData is then no longer the signed payload: never admitted. *)
+Reframe(tx, item, how) == [tx EXCEPT !.ed = [dmg |-> "reframe", bit |-> 0, item |-> item, how |-> how]]
+PayItems == 0..9
+ReframeHows == {"long", "lead0", "wrap1"}
 =============================================================================
